@@ -41,6 +41,7 @@ func main() {
 	knownPath := flag.String("known", "/verif/known_findings.txt", "known findings file (read only)")
 	replay := flag.String("replay", "", "print a stored violation")
 	list := flag.Bool("list", false, "list obligations")
+	seeds := flag.String("seeds", "/verif/seeded", "directory of seeded faults used as positive controls in the thorough tier")
 	flag.Parse()
 
 	if *replay != "" {
@@ -152,7 +153,23 @@ func main() {
 				}
 			}
 		}
+		missedControls := 0
+		if *tier == "thorough" && os.Getenv("VERIF_NO_CONTROLS") == "" {
+			lines, applied, missed := runControls(id, *repo, *knownPath, *seeds)
+			res.selftests = append(res.selftests, lines...)
+			res.stats["controls_applied"] = applied
+			res.stats["controls_missed"] = missed
+			missedControls = missed
+			for _, l := range lines {
+				fmt.Println("CONTROL " + l)
+			}
+		}
 		code := finish(id, *tier, spec.level, spec.explanation, seed, res, known, *out, start, cmdline)
+		if code == 0 && missedControls > 0 {
+			// not a violation of the property: the check itself has lost sensitivity
+			fmt.Printf("CONTROL-MISSED property=%s: %d seeded fault(s) that apply to this tree are no longer reported\n", id, missedControls)
+			code = 2
+		}
 		if code > exit {
 			exit = code
 		}
